@@ -513,6 +513,10 @@ fn assign_enc_node(t: &mut Tape, n: &mut Node, o: EncOpts, inside_full: bool) {
         }
     }
     if inside_full {
+        // a master inside a Full item may itself be given as Start / End children of that item
+        if is_master && t.chance(1, 3) {
+            n.enc.flat_in_full = true;
+        }
         return;
     }
     n.enc.full = full_here;
